@@ -8,7 +8,15 @@ from . import layout as L
 
 ROLE_DEVICE, ROLE_ENDORSEMENT = 0x02, 0xFF
 CHAIN_VARIANTS = ["genuine", "device-link", "attestation-link", "ui-link", "signer-link",
-                  "ui-untweaked", "signer-foreign-tweak"]
+                  "ui-untweaked", "signer-foreign-tweak",
+                  # the genuine signature of one element with s replaced by N - s (re-encoded)
+                  "device-high-s", "attestation-high-s", "ui-high-s", "signer-high-s"]
+
+
+def high_s(der):
+    from ecdsa.util import sigdecode_der, sigencode_der
+    r, s = sigdecode_der(der, k1.N)
+    return sigencode_der(r, k1.N - s, k1.N)
 
 
 class LedgerGen:
@@ -123,17 +131,21 @@ class LedgerGen:
         base = self.stranger if chain == "signer-link" else self.attestation
         tw = self.ui_hash if chain == "signer-foreign-tweak" else self.signer_hash_installed
         sg_signer = base.tweaked(tw)
+        sigs = {"device": self.sign(dev_signer, dev_msg), "attestation": self.sign(att_signer, att_msg),
+                "ui": self.sign(ui_signer, ui_msg), "signer": self.sign(sg_signer, signer_msg)}
+        if chain.endswith("-high-s"):
+            sigs[chain[:-7]] = high_s(sigs[chain[:-7]])
         return {
             "device": {"name": "device", "message": dev_msg.hex(),
-                       "signature": self.sign(dev_signer, dev_msg).hex(), "signed_by": "root"},
+                       "signature": sigs["device"].hex(), "signed_by": "root"},
             "attestation": {"name": "attestation", "message": att_msg.hex(),
-                            "signature": self.sign(att_signer, att_msg).hex(),
+                            "signature": sigs["attestation"].hex(),
                             "signed_by": "device"},
             "ui": {"name": "ui", "message": ui_msg.hex(),
-                   "signature": self.sign(ui_signer, ui_msg).hex(), "signed_by": "attestation",
+                   "signature": sigs["ui"].hex(), "signed_by": "attestation",
                    "tweak": self.ui_hash.hex()},
             "signer": {"name": "signer", "message": signer_msg.hex(),
-                       "signature": self.sign(sg_signer, signer_msg).hex(),
+                       "signature": sigs["signer"].hex(),
                        "signed_by": "attestation", "tweak": self.signer_hash_installed.hex()},
         }
 
